@@ -127,7 +127,10 @@ func dumpScript(y coqx.Syn, s *logql_parser.LogQLScript) string {
 // ---------------------------------------------------------------- generator of metric queries
 
 var durations = []string{"1s", "5s", "15s", "1m", "5m"}
-var oddDurations = []string{"1ms", "1500ms", "14s", "16s", "30s", "90m", "2h", "999us", "1ns", "7s"}
+// incl. ranges of at least 15 s with a sub-second part whose whole seconds are a multiple of 15 (seed C08-e), and multiples of
+// 15 s written in small units
+var oddDurations = []string{"1ms", "1500ms", "14s", "16s", "30s", "90m", "2h", "999us", "1ns", "7s",
+	"15500ms", "45000000001ns", "30001ms", "15000001us", "30000ms", "45000000us", "14999ms"}
 var stepsMs = []int64{1000, 5000, 15000, 60000, 300000}
 
 func genDur(r *rand.Rand) string {
